@@ -80,6 +80,35 @@ func H_C12_gppp_bmp() {
 	vCover("end")
 }
 
+// characters outside the Basic Multilingual Plane (two UTF-16 code units each): concrete samples among ASCII, the tail
+// symbolic
+func H_C12_gppp_supplementary() {
+	samples := [3]string{"P@ss\U0001F600word", "\U00010348\U0001F511x", "a\U0010FFFF"}
+	units := [3][]uint16{
+		{'P', '@', 's', 's', 0xD83D, 0xDE00, 'w', 'o', 'r', 'd'},
+		{0xD800, 0xDF48, 0xD83D, 0xDD11, 'x'},
+		{'a', 0xDBFF, 0xDFFF},
+	}
+	k := vParam("sample")
+	t := vU8("tail")
+	vAssume(t >= 0x20 && t < 0x7F)
+	pw := samples[k] + string([]byte{t})
+	var u16 []byte
+	for _, u := range units[k] {
+		u16 = append(u16, byte(u), byte(u>>8))
+	}
+	u16 = append(u16, t, 0)
+	enc, err := GPPPEncrypt(pw)
+	vCheck(err == nil, "gppp/supplementary/encrypt-ok")
+	raw, derr := base64.StdEncoding.DecodeString(enc)
+	vCheck(derr == nil, "gppp/supplementary/output-is-base64")
+	vCheck(vBytesEq(raw, refEncrypt(u16)), "gppp/supplementary/ciphertext")
+	dec, err := GPPPDecryptBase64(enc)
+	vCheck(err == nil, "gppp/supplementary/decrypt-ok")
+	vCheck(vStrEq(dec, pw), "gppp/supplementary/identity")
+	vCover("end")
+}
+
 // Decrypt direction first: any ciphertext whose CBC plaintext is validly padded UTF-16 decrypts and re-encrypts to itself
 func H_C12_gppp_key_and_iv() {
 	vCheck(len(GPPP_AES_KEY) == 32, "gppp/key-length")
